@@ -75,6 +75,18 @@ where
     }
 }
 
+/// Verification hooks, only compiled with the `verif-hooks` feature (off by default).
+#[cfg(feature = "verif-hooks")]
+impl<T> RateLimiter<T>
+where
+    T: Eq + Copy + Hash,
+{
+    /// Returns the keys that are currently tracked by the rate limiter.
+    pub fn verif_tracked_keys(&self) -> Vec<T> {
+        self.buckets.keys().copied().collect()
+    }
+}
+
 #[cfg(test)]
 mod tests {
     use super::*;
